@@ -73,10 +73,14 @@ CHECKS.update({
                      "runtime contracts against the dense vector. Two recorded findings (RDMs of complex states are conjugated).",
                 technique="contracts decided exactly by symbolic execution of the real code (polynomial identities) + runtime contracts as bounded stand-in",
                 note=OTHER_NOTE + " Shims of the symbolic runs are listed in evidence."),
-    "C08": dict(cat="exploration", ref="DESIGN §8 C08",
-                text="Variational-theorem contracts against exact diagonalisation of the sector-projected dense Hamiltonian: every reported energy is an upper bound "
+    "C08": dict(cat="other", ref="DESIGN §8 C08, S.2",
+                text="Engine S: for symbolic chain states (any tensors) the matrix the optimiser diagonalises at every site (1-site) and every pair of sites (2-site) - "
+                     "environments from the real Environ.GetLR, the real get_ham_direct, with and without the omega target, plus the preconditioner diagonal of get_ham_iterative - "
+                     "equals J^H H J (resp. J^H H^2 J), the Hamiltonian projected onto the symmetry-allowed entries of the optimised tensor, exactly. "
+                     "Variational-theorem contracts against exact diagonalisation of the sector-projected dense Hamiltonian: every reported energy is an upper bound "
                      "(k-th root vs k-th eigenvalue), exact at sufficient bond dimension, returned states normalised / in sector / QN-valid, omega targeting; bounded.",
-                technique="runtime contracts derived from the variational theorem on the real optimiser over bounded inputs (bounded stand-in of the contract family)",
+                technique="exact symbolic execution of the effective-Hamiltonian construction (projection identity, all environments); runtime contracts derived from the "
+                          "variational theorem on the real optimiser over bounded inputs (bounded stand-in for the eigensolver / convergence clauses)",
                 note=OTHER_NOTE),
     "C09": dict(cat="other", ref="DESIGN §8 C09, S.2",
                 text="Engine S (kernel-stub mode): the real _evolve_prop_and_compress (Taylor), _tdrk4 and _tdrk (all eight single-row tableaux) run on symbolic states with "
@@ -194,7 +198,7 @@ def main():
             {"name": "pyvc", "path": "vk/pyvc", "serves_properties": ["C02", "C03", "C04", "C05", "C06", "C14", "C16", "C17", "C20"], "kind_free_text": "AST -> verification conditions (loop invariants, call by contract) -> z3/cvc5"},
             {"name": "exact-exec", "path": "vk/symx/exactexec.py", "serves_properties": ["C16", "C19"], "kind_free_text": "real source executed on exact rationals / z3 reals"},
             {"name": "effects", "path": "vk/pyvc/effects.py", "serves_properties": ["C13"], "kind_free_text": "alias / effect analysis of the real source against sidecar modifies clauses"},
-            {"name": "symx", "path": "vk/symx", "serves_properties": ["C01", "C02", "C03", "C04", "C07", "C09", "C10", "C11", "C12", "C15", "C18"], "kind_free_text": "real NumPy-level code executed on exact symbolic polynomial scalars; identities decided by normal form"},
+            {"name": "symx", "path": "vk/symx", "serves_properties": ["C01", "C02", "C03", "C04", "C07", "C08", "C09", "C10", "C11", "C12", "C15", "C18"], "kind_free_text": "real NumPy-level code executed on exact symbolic polynomial scalars; identities decided by normal form"},
             {"name": "rtc", "path": "vk/rtc", "serves_properties": ["C01", "C02", "C03", "C04", "C05", "C06", "C07", "C08", "C09", "C10", "C11", "C12", "C13", "C14", "C15", "C16", "C17", "C18", "C20"], "kind_free_text": "runtime contracts on the real functions, bounded-exhaustive inputs (bounded stand-in, never counted as proved)"},
         ],
         "checks": checks,
